@@ -148,6 +148,19 @@ def run(ctx):
     # ------------------------------------------------------------------ R3
     classes = set(types)
     ctor_sites = []
+    # class tables: a module-level tuple/list of group classes used as TABLE[i](atom)
+    class_tables = {}
+    for st in gmod.tree.body:
+        if isinstance(st, (ast.Assign, ast.AnnAssign)) and isinstance(st.value, (ast.Tuple, ast.List)) \
+                and st.value.elts and all(isinstance(e, ast.Name) and e.id in classes for e in st.value.elts):
+            tgt = st.targets[0] if isinstance(st, ast.Assign) else st.target
+            class_tables[norm(tgt)] = [e.id for e in st.value.elts]
+    table_sites = []
+    for m2, q2, f2 in prog.all_funcs():
+        for call in calls_in(f2, nested=False):
+            if isinstance(call.func, ast.Subscript) and norm(call.func.value) in class_tables \
+                    and m2.name == 'group':
+                table_sites.append((m2, q2, f2, call, class_tables[norm(call.func.value)]))
     for m2, q2, f2 in prog.all_funcs():
         for call in calls_in(f2, nested=False):
             cn = call_name(call)
@@ -168,6 +181,12 @@ def run(ctx):
                q2 in allowed_ctor and in_ret,
                'a group object is created only by a classifier, as the value it returns at once '
                '(first match wins), or by clone', m2, call)
+    for m2, q2, f2, call, names_ in table_sites:
+        for cname_ in names_:
+            ctx.ob('C01.R3', 'constructor-site:%s:%s[%s]' % (q2, norm(call.func.value), cname_),
+                   q2 in allowed_ctor and isinstance(call._parent, ast.Return),
+                   'a group object is created only by a classifier, as the value it returns at once '
+                   '(here through a table of classes)', m2, call)
     ctx.need('C01.R3', 25)
     # is_group: first non-None classifier result is returned
     isg = gmod.func('is_group')
